@@ -9,8 +9,8 @@ C08 — the specification, in the property's own words and independent of `parse
 * `Spec.expected`   if Python binds the normalised call: ParseError without entering the body when a conversion fails,
                     otherwise the body runs with Python's binding of the converted call (omitted parameters = defaults).
                     `none` = Python itself would not bind the call: the property is silent.
-* `Spec.genTrace`   the undecorated generator resumed with the converted sends, every yielded / returned value converted,
-                    cut at the first value that does not convert.
+* `Spec.pointwise`  the generator clause on lists: sends converted one by one, the undecorated machine's trace on the
+                    converted history (`rawTrace`), its yields / return converted one by one, cut at the first failure.
 -/
 namespace Utv.C08
 variable {N V T : Type} [DecidableEq N] [DecidableEq V]
@@ -74,6 +74,15 @@ def expected (W : World N V T) (s : Sig N V T) (args : List V) (kw : List (N × 
     | some a, some k => (pyBindCore s a k).map .body
     | _, _ => some .perr
 
+/-- what the caller of the function gets once the body has run with binding `b`: the body's result converted to the
+return annotation, or a ParseError when it does not convert; errors before the body stay what they are -/
+def result (W : World N V T) (ret : Option T) (body : Binding N V → V) : Outcome N V → Ret N V
+  | .body b => match convO W ret (body b) with
+    | some v => .returned b v
+    | none => .resultErr b
+  | .perr => .perr
+  | .tyerr => .tyerr
+
 /-- the undecorated generator with its tail hand-overs followed: the generator it yields takes over and is started
 with `next()`; whatever was sent to the old one was consumed by the old one -/
 def flat {σ : Type} (raw : σ → Option V → RawStep σ V) : Nat → σ → Option V → Step σ V
@@ -84,27 +93,49 @@ def flat {σ : Type} (raw : σ → Option V → RawStep σ V) : Nat → σ → O
     | .ret r => .ret r
     | .delegate st' => flat raw fuel st' none
 
-/-- generator: raw machine on converted sends, outputs converted, cut at the first failure -/
-def genTrace (W : World N V T) (g : GenTypes T) {σ : Type} (step : σ → Option V → Step σ V) :
-    σ → Option V → List (Option V) → List (Ev V)
-  | st, inp, rest =>
-    match (match inp with | none => some none | some x => (convO W g.sendT x).map some) with
+/-! #### the generator clause, stated on lists
+
+"The sequence of values yielded, sent and returned is that of the undecorated function with each value converted to
+its declared type": take the caller's input history, convert the sends one by one (up to the first that does not
+convert), run the UNDECORATED machine on the converted history (`rawTrace`, a plain list function), convert what it
+yields / returns one by one (up to the first that does not convert, where the caller gets a ParseError); if a send did
+not convert and the generator was still waiting for it, the caller gets the ParseError there. -/
+
+/-- the sends converted one by one: the converted prefix, and whether a send that does not convert stopped it -/
+def convSends (W : World N V T) (g : GenTypes T) : List (Option V) → List (Option V) × Bool
+  | [] => ([], false)
+  | none :: rest => ((none :: (convSends W g rest).1), (convSends W g rest).2)
+  | some x :: rest =>
+    match convO W g.sendT x with
+    | none => ([], true)
+    | some x' => ((some x' :: (convSends W g rest).1), (convSends W g rest).2)
+
+/-- the undecorated events converted one by one, cut at the first value that does not convert -/
+def convEvents (W : World N V T) (g : GenTypes T) : List (Ev V) → List (Ev V)
+  | [] => []
+  | .yielded v :: rest =>
+    match convO W g.yieldT v with
     | none => [.raised]
-    | some inp' =>
-      match step st inp' with
-      | .escaped => [.escaped]
-      | .diverged => [.diverged]
-      | .ret none => [.returned none]
-      | .ret (some r) =>
-        match convO W g.retT r with
-        | some v => [.returned (some v)]
-        | none => [.raised]
-      | .yield v st' =>
-        match convO W g.yieldT v with
-        | none => [.raised]
-        | some y => .yielded y :: match rest with
-          | [] => []
-          | nxt :: more => genTrace W g step st' nxt more
+    | some y => .yielded y :: convEvents W g rest
+  | .returned none :: _ => [.returned none]
+  | .returned (some r) :: _ =>
+    match convO W g.retT r with
+    | none => [.raised]
+    | some v => [.returned (some v)]
+  | e :: _ => [e]
+
+def Ev.isYielded : Ev V → Bool
+  | .yielded _ => true
+  | _ => false
+
+/-- the generator clause: `inp` is the (already converted) value of the current resumption, `sends` the caller's
+later inputs -/
+def pointwise (W : World N V T) (g : GenTypes T) {σ : Type} (step : σ → Option V → Step σ V)
+    (st : σ) (inp : Option V) (sends : List (Option V)) : List (Ev V) :=
+  let pre := (convSends W g sends).1
+  let outs := convEvents W g (rawTrace step st inp pre)
+  if (convSends W g sends).2 && outs.length == pre.length + 1 && outs.all Ev.isYielded then outs ++ [.raised]
+  else outs
 
 end Spec
 end Utv.C08
